@@ -742,6 +742,35 @@ func (it *k4interp) eval1(fr *k4frame, v ssa.Value) (k4val, error) {
 			// pointer / interface identity vs nil etc: an atom
 		}
 		if isBoolT(x.Type()) {
+			// `X != Y` on opaque operands is the negation of the atom `X == Y`
+			// (so a rewritten `err != nil` needs no second model entry)
+			if x.Op == token.NEQ {
+				key := "(" + a.String() + "==" + b.String() + ")"
+				known := false
+				if _, ok := it.m.Bool[key]; ok {
+					known = true
+				}
+				if it.answer != nil {
+					if _, ok := it.answer(key, true); ok {
+						known = true
+					}
+				}
+				if known {
+					v, err := it.lookup(key, boolT)
+					if err == nil && v.kind == 1 {
+						return k4val{kind: 1, b: !v.b}, nil
+					}
+				}
+			}
+			if x.Op == token.EQL {
+				key := "(" + a.String() + "!=" + b.String() + ")"
+				if _, ok := it.m.Bool[key]; ok {
+					v, err := it.lookup(key, boolT)
+					if err == nil && v.kind == 1 {
+						return k4val{kind: 1, b: !v.b}, nil
+					}
+				}
+			}
 			return it.opaque(fr, x)
 		}
 		return k4val{}, fmt.Errorf("cannot evaluate %s on %s and %s", x.Op, a, b)
